@@ -4,7 +4,9 @@
    Vocabulary (Model.v / Spec.v):
      run S evs            the network state after the events evs (Fetch i j = router i processes router j's
                           current advertisement with the modelled ribUpdate; Deliver i j adv = router i processes
-                          the advertisement adv as coming from j (stale, or arbitrary); NbrUp / NbrDead =
+                          the advertisement adv as coming from j (stale, or arbitrary); LateUpdate i j adv = a
+                          ribUpdate goroutine started for neighbour j runs only after the dead sweep removed j
+                          and deleted its state object (ns.Advert = nil, the guard of ribUpdate); NbrUp / NbrDead =
                           neighbour entry created / declared dead; RouterUp / RouterDown)
      topo_of S            the directed graph "j is in i's neighbour table" over the live routers
      settled g            every neighbour-table entry names a live router (all losses have been detected)
@@ -43,6 +45,13 @@ Print Assumptions refresh_order_independent.
 Theorem reachable_well_formed : forall hist, net_ok (run [] hist).
 Proof. exact (fun hist => run_ok hist [] net_ok_nil). Qed.
 Print Assumptions reachable_well_formed.
+
+(* a ribUpdate that runs late, on the state object of a neighbour that checkDeadNeighbors has already removed (and
+   whose stored advertisement NeighborState.delete cleared), changes nothing and flags nothing — so the lost
+   neighbour's destinations are not re-installed; such events may occur anywhere in the histories and rounds below *)
+Theorem late_update_changes_nothing : forall S i j adv, step S (LateUpdate i j adv) = (S, false).
+Proof. exact late_update_noop. Qed.
+Print Assumptions late_update_changes_nothing.
 
 (* no advertisement ever lists a destination whose best cost is at or above infinity:
    every reachable state, every schedule, every fault sequence, whatever the neighbours sent *)
@@ -149,11 +158,12 @@ Example c18_example :
 Proof. vm_compute. repeat split; reflexivity. Qed.
 
 (* non-vacuity of asynchronous rounds: two routers; router 1 fetches, then router 2 processes the advertisement
-   router 1 had at the START of the round — stale (router 1 has changed since) but generated within the round. *)
+   router 1 had at the START of the round — stale (router 1 has changed since) but generated within the round;
+   a late update for a neighbour that is not (any more) in the table happens in between. *)
 Definition ex2_S0 : net := run [] [RouterUp 1; RouterUp 2; NbrUp 1 2; NbrUp 2 1].
 Definition ex2_adv0 : list adv_entry :=
   match getr ex2_S0 1 with Some r => advert (rrib r) | None => [] end.
-Definition ex2_round : list event := [Fetch 1 2; Deliver 2 1 ex2_adv0].
+Definition ex2_round : list event := [Fetch 1 2; LateUpdate 2 9 ex2_adv0; Deliver 2 1 ex2_adv0].
 
 Example c18_async_example :
   around (topo_of ex2_S0) ex2_S0 ex2_round /\
@@ -162,8 +172,8 @@ Example c18_async_example :
 Proof.
   split; [|split; [|vm_compute; repeat split; reflexivity]].
   - split.
-    + simpl. split; [exact I|]. split; [|exact I].
-      exists ex2_S0. eexists. split; [right; left; reflexivity|]. split; [vm_compute; reflexivity | vm_compute; reflexivity].
+    + simpl. split; [exact I|]. split; [exact I|]. split; [|exact I].
+      exists ex2_S0. eexists. split; [right; right; left; reflexivity|]. split; [vm_compute; reflexivity | vm_compute; reflexivity].
     + intros i j He. unfold E, nb in He. vm_compute in He.
       destruct i as [|[p|p|]]; try destruct p; try (destruct He; fail);
         destruct He as [<- | []]; vm_compute; reflexivity.
